@@ -82,6 +82,7 @@ def check_glue(ctx, rs, sc, cuqi, S, H):
         check_negative_tolerances(ctx, rs, sc, H, CGLS, PCGLS, LM),
         check_lm_damping(ctx, rs, sc, H, LM),
         check_assigned_maxit(ctx, rs, sc, H, CGLS, FISTA, LM, ProjectNonnegative)])
+    check_stored_buffer_callables(ctx, rs, sc, H, minimize, maximize, L_BFGS_B, LS, FISTA, ProjectNonnegative)
 
 
 def _run_batched(ctx, gens):
@@ -714,3 +715,131 @@ def check_assigned_maxit(ctx, rs, sc, H, CGLS, FISTA, LM, ProjectNonnegative):
                 ctx.fail(key, desc, f"at most {cap} passes", ki, "more iterations than the re-assigned maxit allows")
         else:
             _cov(ctx, "glue_assigned_maxit", f"{solver}:{match}")
+
+
+# ----------------------------------------------------------------------------- callables that return arrays the caller keeps
+def _stored_gradient(style, f_of, g_of, n):
+    """(func, gradfunc, audit) with a gradient callback that returns an array the user keeps: `buffer` = preallocated work array
+    overwritten on every call, `cached` = memoised per point.  audit() -> None | description of a user-owned array that no
+    longer holds what the callback wrote into it."""
+    if style == "buffer":
+        buf = np.zeros(n); last = {}
+        def g(x):
+            buf[...] = g_of(x); last["x"] = np.array(x, dtype=float); return buf
+        def audit():
+            if "x" in last and not np.array_equal(buf, g_of(last["x"])):
+                return f"work buffer holds {buf.tolist()} instead of the gradient {np.asarray(g_of(last['x'])).tolist()} written last"
+        return f_of, g, audit
+    cache = {}
+    def g(x):
+        k = np.asarray(x, dtype=float).tobytes()
+        if k not in cache:
+            cache[k] = np.array(g_of(x), dtype=float)
+        return cache[k]
+    def audit():
+        bad = [k for k, v in cache.items() if not np.array_equal(v, g_of(np.frombuffer(k, dtype=float)))]
+        if bad:
+            return f"{len(bad)} of {len(cache)} memoised gradients changed"
+    return f_of, g, audit
+
+
+def check_stored_buffer_callables(ctx, rs, sc, H, minimize, maximize, L_BFGS_B, LS, FISTA, ProjectNonnegative):
+    """input class: func / gradfunc / jacfun / proximal callables that hand back an array the caller owns (stored constant
+    gradient of a linear objective, reused work buffer, memoised gradient).  Demanded: (a) the wrapper's result is SciPy's result —
+    for `maximize` of (-func, -grad) evaluated with fresh arrays, for the pass-through wrappers of an independent identical callable;
+    (b) the caller's arrays still hold what the caller put there (byte-compared)."""
+    sopt_ = sopt
+    for i in range(12 * sc):
+        n = int(rs.randint(2, 6))
+        x0 = np.full(n, 0.5) + rs.randint(-1, 2, size=n) / 8.0
+        for style in ("constant", "buffer", "cached"):
+            for wname in ("maximize", "minimize"):
+                sign = -1.0 if wname == "maximize" else 1.0          # the wrapper is handed sign * (objective to be minimised)
+                if style == "constant":
+                    c0 = rs.randint(-4, 5, size=n).astype(float); c0[c0 == 0] = 1.0
+                    method, kw = ["L-BFGS-B", "TNC", "SLSQP", None][i % 4], {"bounds": [(0.0, 1.0)] * n}
+                    fmin, gmin = (lambda x, c0=c0: float(c0 @ x)), (lambda x, c0=c0: c0.copy())
+                    def build(c0=c0, sign=sign):
+                        c = sign * c0          # the user's stored vector: objective c.x, gradient c (the same array, no copy)
+                        def audit():
+                            if not np.array_equal(c, sign * c0):
+                                return f"stored gradient vector is {c.tolist()} instead of {(sign * c0).tolist()}"
+                        return (lambda x: float(c @ x)), (lambda x: c), audit
+                else:
+                    B = H.gen_matrix(rs, n + 1, n, False); cc = rs.randint(-3, 4, size=n + 1).astype(float)
+                    method, kw = ["BFGS", "CG", "L-BFGS-B", "TNC", "SLSQP", "Newton-CG"][i % 6], {}
+                    fmin = (lambda x, B=B, cc=cc: float(0.5 * np.sum((B @ x - cc) ** 2)))
+                    gmin = (lambda x, B=B, cc=cc: B.T @ (B @ x - cc))
+                    def build(fmin=fmin, gmin=gmin, sign=sign, style=style, n=n):
+                        return _stored_gradient(style, lambda x: sign * fmin(x), lambda x: sign * gmin(x), n)
+                desc = {"wrapper": wname, "gradient_style": style, "method": method, "n": n, "x0": x0.tolist(), "kwargs": list(kw)}
+                ctx.case("glue-stored-buffer-" + wname, desc)
+                fw, gw, audit_w = build()
+                W = maximize if wname == "maximize" else minimize
+                res_w, e = _run(lambda: W(fw, x0.copy(), gradfunc=gw, method=method, **kw).solve())
+                # reference: for maximize SciPy on (-func, -grad) with fresh arrays (the wrapper negates into new arrays);
+                # for minimize the direct SciPy call with an independent callable of the same style
+                if wname == "maximize":
+                    ref, e2 = _run(lambda: sopt_.minimize(fmin, x0.copy(), jac=lambda x: np.array(gmin(x), dtype=float), method=method, **kw))
+                else:
+                    fr, gr, _ = build()
+                    ref, e2 = _run(lambda: sopt_.minimize(fr, x0.copy(), jac=gr, method=method, **kw))
+                key = f"{wname}:stored-gradient:{style}"
+                if e is not None or e2 is not None:
+                    if (e is None) != (e2 is None):
+                        ctx.disagree(key, desc, repr(e2)[:80] if e2 else "returns", repr(e)[:80] if e else "returns", "differs from the direct SciPy call")
+                        ctx.fail(key, desc, repr(e2)[:80] if e2 else "returns", repr(e)[:80] if e else "returns", "wrapper does not return SciPy's result unchanged")
+                    continue
+                sol, info = res_w
+                ok = H.same(sol, ref["x"]) and H.same(info["func"], ref["fun"]) and info["nfev"] == ref["nfev"] and info["success"] == ref["success"]
+                if not ok:
+                    ctx.disagree(key, desc, [ref["x"].tolist(), float(ref["fun"])], [np.asarray(sol).tolist(), float(info["func"])],
+                                 "result differs from SciPy's for the (negated) problem when the gradient callback returns a stored array")
+                    ctx.fail(key, desc, [ref["x"].tolist(), float(ref["fun"])], [np.asarray(sol).tolist(), float(info["func"])],
+                             "wrapper does not return SciPy's result unchanged (apart from sign for maximisation)")
+                bad = audit_w()
+                if bad:
+                    ctx.fail(f"{wname}:mutates-argument", desc, "the user's arrays as the user's callback left them", bad,
+                             "the wrapper modifies the array returned by the user's gradient function")
+        # ---- L_BFGS_B / LS / FISTA with buffer-returning callables: against the same call with fresh-array callables
+        B = H.gen_matrix(rs, n + 1, n, False); cc = rs.randint(-3, 4, size=n + 1).astype(float)
+        fmin = (lambda x: float(0.5 * np.sum((B @ x - cc) ** 2))); gmin = (lambda x: B.T @ (B @ x - cc))
+        gb = np.zeros(n); rb = np.zeros(n + 1); Jc = B.copy()
+        def g_buf(x):
+            gb[...] = gmin(x); return gb
+        def r_buf(x):
+            rb[...] = B @ x - cc; return rb
+        desc = {"wrapper": "L_BFGS_B", "gradient_style": "buffer", "n": n, "x0": x0.tolist()}
+        ctx.case("glue-stored-buffer-other", desc)
+        a, e = _run(lambda: L_BFGS_B(fmin, x0.copy(), gradfunc=g_buf).solve()); gb2 = np.zeros(n)
+        def g_buf2(x):
+            gb2[...] = gmin(x); return gb2
+        r_, e2 = _run(lambda: sopt.fmin_l_bfgs_b(fmin, x0.copy(), fprime=g_buf2, approx_grad=0))
+        if (e is None) != (e2 is None) or (e is None and not (H.same(a[0], r_[0]) and H.same(a[1]["func"], r_[1]))):
+            ctx.disagree("L_BFGS_B:stored-gradient:buffer", desc, "SciPy's result", "differs", "differs from the direct SciPy call")
+            ctx.fail("L_BFGS_B:stored-gradient:buffer", desc, r_[0].tolist() if e2 is None else repr(e2)[:80], np.asarray(a[0]).tolist() if e is None else repr(e)[:80],
+                     "wrapper does not return SciPy's result unchanged")
+        desc = {"wrapper": "LS", "callable_style": "residual buffer + stored Jacobian", "n": n, "x0": x0.tolist()}
+        ctx.case("glue-stored-buffer-other", desc)
+        a, e = _run(lambda: LS(r_buf, x0.copy(), jacfun=lambda x: Jc, method=["trf", "dogbox", "lm"][i % 3]).solve())
+        r_, e2 = _run(lambda: sopt.least_squares(lambda x: B @ x - cc, x0.copy(), jac=lambda x: B.copy(), method=["trf", "dogbox", "lm"][i % 3], loss="linear", xtol=1e-6, max_nfev=10000))
+        if (e is None) != (e2 is None) or (e is None and not vclose(np.asarray(a[0]), r_["x"], 1e-9)):
+            ctx.disagree("LS:stored-callables", desc, "SciPy's result", "differs", "differs from the SciPy call with fresh arrays")
+            ctx.fail("LS:stored-callables", desc, r_["x"].tolist() if e2 is None else repr(e2)[:80], np.asarray(a[0]).tolist() if e is None else repr(e)[:80],
+                     "wrapper does not return SciPy's result unchanged")
+        if not np.array_equal(Jc, B):
+            ctx.fail("LS:mutates-argument", desc, B.tolist(), Jc.tolist(), "the stored Jacobian returned by the user's jacfun was modified")
+        desc = {"solver": "FISTA", "callable_style": "proximal writes into a reused buffer", "n": n, "x0": x0.tolist()}
+        ctx.case("glue-stored-buffer-other", desc)
+        pb = np.zeros(n); t = 2.0 ** math.floor(math.log2(1.0 / np.linalg.norm(B, 2) ** 2))
+        def prox_buf(x, g):
+            pb[...] = ProjectNonnegative(x); return pb
+        for ad in (False, True):
+            a, e = _run(lambda: FISTA(B, cc.copy(), x0.copy(), prox_buf, maxit=25, stepsize=t, abstol=1e-12, adaptive=ad).solve())
+            r_, e2 = _run(lambda: FISTA(B, cc.copy(), x0.copy(), lambda x, g: ProjectNonnegative(x), maxit=25, stepsize=t, abstol=1e-12, adaptive=ad).solve())
+            if (e is None) != (e2 is None) or (e is None and (a[1] != r_[1] or not np.array_equal(np.asarray(a[0]), np.asarray(r_[0])))):
+                k = f"{'FISTA' if ad else 'ISTA'}:stored-proximal-buffer"
+                ctx.disagree(k, desc, "result with a fresh-array proximal", "differs", "a proximal callable that reuses its output buffer changes the result")
+                x = np.asarray(a[0], dtype=float) if e is None else None
+                if x is None or np.linalg.norm(x - np.maximum(x - t * (B.T @ (B @ x - cc)), 0)) > 1e-6 * (1 + np.linalg.norm(x)):
+                    ctx.fail(k, desc, "fixed point of the proximal-gradient map", repr(e)[:80] if e else x.tolist(), "not a fixed point when the proximal callable reuses its buffer")
